@@ -183,7 +183,7 @@ def run_shard(shard, tier, seed):
     else:
         cores = [genhist.core_str_anywhere(t, 3 if a <= 6 else 2),
                  genhist.with_final_str(genhist.core_mixed(t, 1, ('rm', 'set', 'fwd'))), genhist.core_str_then_change(t)]
-        halos = [('serialise', 1200, 12), ('mixed', 300, 12)]
+        halos = [('serialise', 600, 12), ('mixed', 200, 12)]
     return _histcheck.run(shard, tier, seed, PROPERTY, cores, halos, PROPS, shrink_per_presig=3)
 
 
